@@ -10,8 +10,10 @@ import (
 	"fmt"
 	"os"
 	"path/filepath"
+	"runtime"
 	"sort"
 	"strings"
+	"time"
 
 	intoto "github.com/in-toto/in-toto-golang/in_toto"
 	"verif/gen"
@@ -420,8 +422,17 @@ func runFree(c *mcx.Ctx) {
 				}()
 			}
 			close(start)
-			for range bodies {
-				<-done
+			for i := range bodies {
+				select {
+				case <-done:
+				case <-time.After(90 * time.Second):
+					// bodies that take milliseconds alone: 90 s without a single completion is a hang.
+					// The goroutine dump goes where the race reports go, the launcher turns it into a finding.
+					buf := make([]byte, 1<<20)
+					buf = buf[:runtime.Stack(buf, true)]
+					os.WriteFile(filepath.Join(mcx.Root(), "work", "race.log.hang"), []byte(fmt.Sprintf("HANG: %d of %d free-running operation bodies did not finish (GOMAXPROCS=%d)\n\n%s", len(bodies)-i, len(bodies), procs, buf)), 0o644)
+					os.Exit(4)
+				}
 			}
 			c.Case(true)
 			c.Impl(int64(len(bodies) * 3))
